@@ -516,8 +516,9 @@ fn cli_exit_scan(rep: &Report) {
         ("encrypt-missing-input", vec!["encrypt", "nosuch.bin", "-t", "bob", "-f", "alice", "-k", "kr.txt", "-o", "out.bin", "--env-pass"], "alicepw", false),
         ("decrypt-password-file-given", vec!["decrypt", "plain.bin", "-t", "bob", "-k", "kr.txt", "-o", "out.bin", "--env-pass"], "bobpw", false),
         // the reader of stderr (a log collector) goes away after the progress text: printing the final status fails
-        ("encrypt-stderr-reader-leaves", vec!["encrypt", "plain.bin", "-t", "bob", "-f", "alice", "-k", "kr.txt", "-o", "out.bin", "--env-pass"], "alicepw", false),
-        ("decrypt-stderr-reader-leaves", vec!["decrypt", "ct.ktl", "-t", "bob", "-k", "kr.txt", "-o", "out.bin", "--env-pass"], "bobpw", false),
+        // (the input comes on stdin and is held back until that reader has left, so the order of events is fixed)
+        ("encrypt-stderr-reader-leaves", vec!["encrypt", "-t", "bob", "-f", "alice", "-k", "kr.txt", "-o", "out.bin", "--env-pass"], "alicepw", false),
+        ("decrypt-stderr-reader-leaves", vec!["decrypt", "-t", "bob", "-k", "kr.txt", "-o", "out.bin", "--env-pass"], "bobpw", false),
     ];
     let kr_bob_only = crate::fx::keyring(&[(&bob, true)]);
     use rayon::prelude::*;
@@ -536,6 +537,7 @@ fn cli_exit_scan(rep: &Report) {
             c.stdout_closed_pipe = *closed;
             if name.ends_with("stderr-reader-leaves") {
                 c.stderr_reader_leaves_after = Some(13); // "Encrypting..." / "Decrypting..."
+                c = c.stdin(if name.starts_with("encrypt") { &p } else { &f });
             }
             let out = proc::run(&c, &sc.0);
             if let Some(sig) = out.signal {
